@@ -299,7 +299,7 @@ def unify_lists(eng, a, b):
     if ea == eb:
         return ea, a.t, b.t
     if ea.kind in ('ref', 'opaque') and eb.kind in ('ref', 'opaque'):
-        return ea, a.t, b.t
+        return (ea if is_opt(ea) else eb), a.t, b.t
     return None
 
 
@@ -416,6 +416,8 @@ def eq_term(eng, a, b):
         o = b if ka == 'none' else a
         if o.ty.kind == 'any':
             return PV.is_pnone(o.t)
+        if is_opt(o.ty):
+            return o.t == 0
         return z3.BoolVal(False)
     if ka == 'any' or kb == 'any':
         if (kb if ka == 'any' else ka) in ('rec', 'tup', 'fn', 'mod', 'pylist', 'dict'):
@@ -432,6 +434,16 @@ def eq_term(eng, a, b):
     if ka == 'list' and kb == 'list':
         u = unify_lists(eng, a, b)
         if u is None:
+            for x, y in ((a, b), (b, a)):
+                if is_opt(x.ty.args[0]) and y.ty.args[0].kind == 'any':
+                    # compare element-wise through boxing (used for `packets == [None]`)
+                    n = z3.simplify(z3.Length(y.t))
+                    if z3.is_int_value(n):
+                        n = n.as_long()
+                        conj = [z3.Length(x.t) == n]
+                        for j in range(n):
+                            conj.append(box(V(x.ty.args[0], x.t[j])) == y.t[j])
+                        return z3.And(*conj)
             if a.ty.args[0].kind == 'any' or b.ty.args[0].kind == 'any':
                 raise core.EngineError('list equality with boxed elements')
             return z3.BoolVal(False)
@@ -1478,7 +1490,11 @@ def _rec_copy(eng, st, recv, args, kwargs, line):
 
 @libm(('rec',), 'pop')
 def _rec_pop(eng, st, recv, args, kwargs, line):
-    raise core.EngineError('record.pop is handled by the call site pattern')
+    # only `kwargs.pop(name, default)` on a record that is not used afterwards
+    ks = z3.simplify(args[0].t)
+    if not z3.is_string_value(ks) or len(args) != 2:
+        raise core.EngineError('record.pop form at line %d' % line)
+    yield st, recv.t.get(ks.as_string(), args[1])
 
 
 @libm(('dict',), 'get')
